@@ -74,6 +74,9 @@ def sample_raw(t, n, start=0):
         return np.array([(3 + i + start) % 5 + 1 for i in range(n)], dtype=np_dtype(t)).tobytes()
     if t in ('f32', 'f64'):
         return np.array([1.0 + 0.25 * (i + start) for i in range(n)], dtype=np_dtype(t)).tobytes()
+    if t == 'ts':
+        # whole seconds in the first half of the channel, fractional values after: conversions must not depend on the values
+        return b''.join(struct.pack('<Qq', 0 if (i + start) < 3 else 2 ** 63 + i, 3500000000 + i + start) for i in range(n))
     return b''.join(S.unique_value(t, 1, i + start) for i in range(n))
 
 
